@@ -160,7 +160,7 @@ func (c *MJTableComponent) writeInnerTableContent(w io.StringWriter) error {
 
 	// If no children, write the text content with whitespace trimmed
 	if c.Node.Text != "" {
-		_, err := w.WriteString(c.ApplyInlineStylesToHTMLContent(strings.TrimSpace(c.Node.Text)))
+		_, err := w.WriteString(c.ApplyInlineStylesToHTMLContent(parser.EscapeCharData(strings.TrimSpace(c.Node.Text))))
 		return err
 	}
 
@@ -211,19 +211,32 @@ func (c *MJTableComponent) reconstructHTMLElement(node *parser.MJMLNode, w io.St
 		return err
 	}
 
-	// Content (text + children) - trim whitespace to match MRML behavior
-	if node.Text != "" {
-		trimmedText := strings.TrimSpace(node.Text)
-		if trimmedText != "" {
-			if _, err := w.WriteString(trimmedText); err != nil {
+	// Content (text + children) in document order; text is trimmed to match MRML behavior and stays
+	// character data (a decoded '<' or '&' is escaped again)
+	if len(node.MixedContent) > 0 {
+		for _, part := range node.MixedContent {
+			if part.Node != nil {
+				if err := c.reconstructHTMLElement(part.Node, w); err != nil {
+					return err
+				}
+				continue
+			}
+			if trimmedText := strings.TrimSpace(part.Text); trimmedText != "" {
+				if _, err := w.WriteString(parser.EscapeCharData(trimmedText)); err != nil {
+					return err
+				}
+			}
+		}
+	} else {
+		if trimmedText := strings.TrimSpace(node.Text); trimmedText != "" {
+			if _, err := w.WriteString(parser.EscapeCharData(trimmedText)); err != nil {
 				return err
 			}
 		}
-	}
-
-	for _, child := range node.Children {
-		if err := c.reconstructHTMLElement(child, w); err != nil {
-			return err
+		for _, child := range node.Children {
+			if err := c.reconstructHTMLElement(child, w); err != nil {
+				return err
+			}
 		}
 	}
 
